@@ -163,6 +163,28 @@ Definition wrap (k : wkind) (rej ctxdone : bool) (d : derr) : wrapres :=
       mkWR 1 (if ok then 1 else 0) (if ok then 0 else 1) 0 (pass_seen k d)
   end.
 
+(* The context of a wrapper call over the LIFE of the call.  Every wrapper looks at it once, on
+   entry (the *Ctx entry point of the breaker: done => nothing runs, nothing is recorded, the
+   caller gets ctx.Err()).  What has become of it when the downstream returns - the client went
+   away, the call's own deadline passed while the handler / statement / command was running - is
+   not an input of the record: the outcome is classified by the wrapper's table alone.  (A
+   handler that ran into its deadline and returns DeadlineExceeded / Internal / ... with a context
+   that is done is exactly the overload the breaker has to count.) *)
+Inductive wctx :=
+| XLive                (* live from entry to return *)
+| XDone                (* cancelled before the call *)
+| XCancelledAtReturn   (* live on entry; cancelled while the downstream runs *)
+| XExpiredAtReturn     (* live on entry; past its deadline when the downstream returns *)
+| XExpired.            (* past its deadline before the call *)
+
+Definition x_done_at_entry (x : wctx) : bool :=
+  match x with XDone | XExpired => true | _ => false end.
+Definition x_done_at_return (x : wctx) : bool :=
+  match x with XLive => false | _ => true end.
+
+Definition wrapx (k : wkind) (rej : bool) (x : wctx) (d : derr) : wrapres :=
+  wrap k rej (x_done_at_entry x) d.
+
 (* the wrapper as an entry point of the breaker model: DoWithAcceptable[Ctx] with the
    downstream outcome classified by the wrapper's predicate *)
 Definition w_outcome (k : wkind) (d : derr) : outcome :=
@@ -179,7 +201,11 @@ Definition w_outcome (k : wkind) (d : derr) : outcome :=
    script of response-writer calls and then returns, panics, or stalls until the request
    times out / the client goes away.  What BreakerHandler judges is cw.Code of
    response.WithCodeResponseWriter: the LAST WriteHeader argument that reached it (200 if none). *)
-Inductive hop := HWriteHeader (c : Z) | HWrite | HFlush.
+Inductive hop :=
+| HWriteHeader (c : Z) | HWrite | HFlush
+| HCtxDone (deadline : bool).  (* the request's context ends now (client gone / deadline passed); the
+                                  handler goes on.  Only without TimeoutHandler (script_wf): behind
+                                  it the end of the context races with the handler's return *)
 Inductive hend :=
 | HReturn
 | HPanicEnd
@@ -203,6 +229,7 @@ Definition tw_op (t : twst) (o : hop) : twst :=
     let t1 := tw_header t 200 in
     if tw_flushed t1 then t1
     else mkTW true (tw_code t1) true (if tw_code t1 =? 200 then tw_cw t1 else tw_code t1)
+  | HCtxDone _ => t       (* excluded by script_wf *)
   end.
 
 (* the handler returned: TimeoutHandler copies the status unless it is 200 or already flushed *)
@@ -212,6 +239,12 @@ Definition tw_done (t : twst) : Z :=
 (* without TimeoutHandler the script writes to cw itself: the last WriteHeader wins *)
 Definition cw_op (code : Z) (o : hop) : Z :=
   match o with HWriteHeader c => c | _ => code end.
+
+Definition is_ctx_op (o : hop) : bool := match o with HCtxDone _ => true | _ => false end.
+
+(* scripts whose outcome is determined: no end of the context in mid-script behind TimeoutHandler *)
+Definition script_wf (ch : hchain) (ops : list hop) : bool :=
+  match ch with ChPlain _ => true | ChTimeout _ => negb (existsb is_ctx_op ops) end.
 
 (* (cw.Code when BreakerHandler's deferred function runs, does the panic reach the breaker?) *)
 Definition script_result (ch : hchain) (ops : list hop) (e : hend) : Z * bool :=
@@ -248,6 +281,9 @@ Definition h_code (h : hout) : Z :=
   | HPanic None => 200
   | HScript ch ops e => fst (script_result ch ops e)
   end.
+
+Definition hout_wf (h : hout) : bool :=
+  match h with HScript ch ops _ => script_wf ch ops | _ => true end.
 
 (* promise.Accept() iff code < 500 *)
 Definition rest_accepts (h : hout) : bool := h_code h <? 500.
